@@ -36,7 +36,7 @@ func init() {
 	})
 }
 
-var c01Layouts = []string{gen.LC, gen.LF, gen.LFconv, "Z", gen.LT, gen.LS, gen.LSS, gen.LST, gen.LTS}
+var c01Layouts = []string{gen.LC, gen.LF, gen.LFconv, "Z", gen.LT, gen.LS, gen.LSS, gen.LST, gen.LTS, gen.LTT, gen.LTF}
 
 func c01Types(tier string) []reflect.Type {
 	if tier == "thorough" {
